@@ -78,7 +78,7 @@ PROPS = {
     'C08': {'layers': ['l2'], 'modelled_not_verified': ["database/sql conversion of Go values to driver values is applied by the harness translator (canonical value text), not modelled", "reflect is modelled by type descriptors and value trees produced by reflection over the compiled zoo types (translator in the trusted base)", "error identity under Go map iteration is not compared, only accept/reject (and insert/bulk family)"], 'assumptions': ["the executable validateInputs/bindInputs of the model is the specification of acceptable argument lists"]},
     'C16': {'layers': ['l2', 'l2race'], 'modelled_not_verified': ["database/sql conversion of Go values to driver values is applied by the harness translator (canonical value text), not modelled", "reflect is modelled by type descriptors and value trees produced by reflection over the compiled zoo types (translator in the trusted base)", "error identity under Go map iteration is not compared, only accept/reject (and insert/bulk family)"] + ["data races are not expressible in the model"], 'assumptions': []},
     'C17': {'layers': ['sqlite'], 'modelled_not_verified': ["SQLite's parser and semantics are observed (real go-sqlite3), not modelled"], 'assumptions': []},
-    'C09': {'layers': ['l5'], 'modelled_not_verified': ["per-connection re-prepare of an sql.Stmt is database/sql's (exact logs use one pooled connection; several connections are checked by invariants)"], 'assumptions': []},
+    'C09': {'layers': ['l5', 'l4'], 'modelled_not_verified': ["per-connection re-prepare of an sql.Stmt is database/sql's (exact logs use one pooled connection; several connections are checked by invariants)"], 'assumptions': []},
     'C10': {'layers': ['l5'], 'modelled_not_verified': ["which objects the Go runtime considers reachable (liveness of the Query closure's captured Statement/DB, Iterator->driverStmt edge) and finalizer scheduling are the enabling conditions of the finalizer steps: an assumption, sampled by forced-GC histories"], 'assumptions': []},
     'C11': {'layers': ['l5'], 'modelled_not_verified': ["as C10", "database/sql defers the driver-level close until dependent rows are closed"], 'assumptions': []},
     'C12': {'layers': ['l4', 'sqlite'], 'modelled_not_verified': ["sql.Tx (done flag, connection pinning, Tx.Stmt, closing open rows at the end) is an environment model validated by the L4 correspondence"], 'assumptions': ["Commit makes all take effect together / Rollback none is the engine's transaction semantics given the bracket; observed with real SQLite, not proved"]},
